@@ -72,10 +72,10 @@ Record member_info := {
 
 (* what the version's create checker sees in the create event under test *)
 Record create_check := {
-  cc_content_ok : bool;
-  cc_has_creator : bool;
-  cc_room_version_known : bool;     (* absent counts as known *)
-  cc_additional_ok : bool;
+  cc_content_ok : bool;             (* the content is an object (or null) *)
+  cc_has_creator : bool;            (* content.creator is a string *)
+  cc_room_version_known : bool;     (* content.room_version absent, or a string naming a known version *)
+  cc_additional_ok : bool;          (* additional_creators absent, or a list of valid user IDs *)
   cc_room_id_present : bool
 }.
 
@@ -100,7 +100,9 @@ Record auth_input := {
   ai_new_member : option member_info;
   ai_target_member : option mship;
   ai_tpi_event : option (option (list bytes)); (* m.room.third_party_invite for the token: public keys *)
-  ai_sig_ok : bool;                 (* some listed signature verifies under some listed key *)
+  ai_sig_ok : bool;                 (* some listed signature verifies under some key of public_keys *)
+  ai_sig_ok_spec : bool;            (* ... under some key of public_keys or the single public_key *)
+  ai_tpi_sender_ok : bool;          (* the m.room.third_party_invite event was sent by this sender *)
   ai_via_split_ok : bool;
   ai_via_member : option (option mship);
   (* m.room.power_levels *)
